@@ -1,0 +1,11 @@
+//go:build verif
+
+// Contracts for package iplddecoders used by property C15 (comment-only; read by /verif/vcgo, build tag verif).
+package iplddecoders
+
+//@ func (KindSlice) Has
+//@   mode int
+//@   pure
+//@   ensures result <==> exists i int :: 0 <= i && i < len(ks) && ks[i] == k
+//@   loop 0 invariant 0 <= rangeidx0 && rangeidx0 <= len(ks)
+//@   loop 0 invariant forall i int :: 0 <= i && i < rangeidx0 ==> ks[i] != k
